@@ -144,6 +144,32 @@ Calls(it, n) ==
 RECURSIVE AllCalls(_, _)
 AllCalls(p, n) == IF p = <<>> THEN <<>> ELSE Calls(p[1], n) \o AllCalls(Tail(p), n)
 
+\* ---- what the render prints (a catalog without translations: the ids themselves, the plural
+\* id for every count but 1; m = "Hello", pl = "Hellos") ------------------------------------------------
+Upper(s) == CASE s = "Hello" -> "HELLO" [] s = "Hellos" -> "HELLOS" [] OTHER -> s
+ItemOut(it, n) ==
+  CASE it.k = "tag" ->
+         LET cnt == IF it.count = "none" THEN 1 ELSE CountVal(it.count, n)
+             pl == it.plural = "lit" /\ cnt # 1 IN
+         (CASE it.left = "Hello, World!"   -> IF pl THEN "Hello, Worlds!" ELSE "Hello, World!"
+            [] it.left = "Hello, %(you)s!" -> IF pl THEN "Hello, Sues!" ELSE "Hello, Sue!"
+            [] it.left = "Dear %(you)s,"   -> IF pl THEN "Dear Hellos," ELSE "Dear Hello,")
+    [] it.k = "filter" ->
+         LET c == Calls(it, n)[Len(Calls(it, n))]
+             base == IF it.site = "ternary-both-no" THEN "Bye"
+                     ELSE IF c.plural # "" /\ c.n # 1 THEN c.plural ELSE c.id
+             nl == "\n" IN
+         (CASE it.site \in {"output", "echo", "assign", "ternary-left", "ternary-alt", "after-filter", "liquid", "ternary-both", "ternary-both-no",
+                            "if-assign", "for-assign", "liquid-assign"} -> base
+            [] it.site = "then-filter" -> Upper(base)
+            [] it.site = "filter-arg" -> "xHello" \o base
+            [] it.site = "for-body" -> nl \o base \o nl \o nl \o base \o nl
+            [] it.site \in {"if-body", "case-when", "capture-in-if"} -> nl \o base \o nl)
+    [] it.k = "filler" -> IF it.site = "text" THEN "plain text" ELSE ""
+    [] OTHER -> ""
+RECURSIVE OutOf(_, _)
+OutOf(p, n) == IF p = <<>> THEN "" ELSE IF Len(p) = 1 THEN ItemOut(p[1], n) ELSE ItemOut(p[1], n) \o "\n" \o OutOf(Tail(p), n)
+
 \* ---- what extraction reports ---------------------------------------------------------------------
 \* a filter is a message only when it is applied directly to a string literal and every identifier
 \* the family needs is a literal; a tag's context is reported only when it is a literal
@@ -251,5 +277,6 @@ Export ==
   Serialize(ToJson([focus |-> Focus, src |-> Source(prog), items |-> prog,
                     extracted |-> Extracted(prog),
                     calls |-> [n \in 0..2 |-> AllCalls(prog, n)],
+                    outs |-> [n \in 0..2 |-> OutOf(prog, n)],
                     literal |-> [i \in DOMAIN prog |-> LiteralCall(prog[i])]]) \o "\n", IOEnv.OUT_FILE, Opt).exitValue = 0
 =============================================================================
